@@ -661,6 +661,38 @@ fn run_all(ctx: &Ctx) -> i32 {
             texts.push(("captured-strings".into(), format!("q = {}\nf = x => [x, q]\nr = {{[q]: [q]}}\ng = () => r\nto_string(f) + to_string(g)", e)));
         }
     }
+    // long non-ASCII values wherever a value can end up inside a message (a message that quotes, shortens
+    // or underlines such a value must do so on character boundaries): every phase of 2-, 3- and 4-byte
+    // characters relative to any byte offset, in every failing construct and as argument of every built-in
+    {
+        let mut vals: Vec<String> = vec![];
+        for ch in ['\u{e9}', '\u{65e5}', '\u{1f600}', '\u{301}'] {
+            for k in 0..4usize {
+                vals.push(format!("\"{}{}\"", "a".repeat(k), std::iter::repeat(ch).take(if thorough { 90 } else { 45 }).collect::<String>()));
+            }
+        }
+        let constructs = [
+            "S(1)", "[1, 2] via S", "7 into S", "[1] where S", "names = [S]\nnames(0)", "7 into {name: S}", "[1] via [x => x, S]", "S + 1", "1 - S", "-S", "S!", "not S", "if S then 1 else 2", "S.k.j", "S[S]",
+            "{[S]: 1}(S)", "[S, S](S)", "1 + + S", "S S", "S = 1", "f = (S) => 1", "{S: 1}", "#S", "S via S", "x = S\nx = 2", "(a => a + 1)(S)", "[S] + [1]", "S < 1", "S && true", "do {\n  return S(S)\n}",
+            "convert(1, S, \"m\")", "convert(1, \"m\", S)", "format(S, 1, 2)", "to_number(S)", "range(S)", "slice(S, 1, 200)", "slice(S, 3, 2)", "S[200]", "split(S, 5)", "replace(S, 1, 2)",
+        ];
+        for v in &vals {
+            for c in constructs {
+                texts.push(("long-values".into(), c.replace('S', v)));
+            }
+        }
+        let names: Vec<&'static str> = BuiltInFunction::all().iter().map(|f| f.name()).collect();
+        for v in vals.iter().step_by(if thorough { 1 } else { 3 }) {
+            for f in &names {
+                if *f == "print" || *f == "time_now" {
+                    continue;
+                }
+                texts.push(("long-values".into(), format!("{}({})", f, v)));
+                texts.push(("long-values".into(), format!("{}(1, {})", f, v)));
+                texts.push(("long-values".into(), format!("{}({}, {})", f, v, v)));
+            }
+        }
+    }
     // loops whose length comes from the input
     for t in ["1e15!", "9007199254740992!", "170!", "171!", "[1e15]!", "range(1e15)", "range(0, 4294967296)", "round(1, 1e15)", "round(1e300, 400)", "random(1e30)", "chunk([1], 1e30)", "slice([1], 0, 1e30)", "[1, 2][1e30]", "\"ab\"[(-1e30)]", "2 ^ 1e30", "1e308 * 10", "0 / 0", "format(\"{}{}{}\", 1)", "format(\"{\", 1)", "format(\"{0}{9}\", 1)", "split(\"abc\", \"\")", "replace(\"aaa\", \"\", \"b\")", "to_number(\"1e999\")", "to_number(\" 1\")", "convert(1, \"\", \"\")"] {
         texts.push(("extras".into(), t.to_string()));
@@ -671,7 +703,7 @@ fn run_all(ctx: &Ctx) -> i32 {
     }
     ctx.set("source_texts", json!(texts.len()));
     for (fam, t) in &texts {
-        let family: &'static str = if fam == "extras" { "extras" } else if fam == "captured-strings" { "captured" } else if fam.starts_with("corpus") { "corpus" } else if fam.starts_with("nesting") { "nesting" } else if fam.starts_with("tokens") { "tokens" } else if fam == "tree" { "tree" } else { "chars" };
+        let family: &'static str = if fam == "extras" { "extras" } else if fam == "long-values" { "long-values" } else if fam == "captured-strings" { "captured" } else if fam.starts_with("corpus") { "corpus" } else if fam.starts_with("nesting") { "nesting" } else if fam.starts_with("tokens") { "tokens" } else if fam == "tree" { "tree" } else { "chars" };
         if family == "corpus" {
             cases.push(CaseSpec { timeout_is_verdict: true, family, class: fam.clone(), display: t.clone(), request: json!({"t": "src", "s": t, "mode": "static"}) });
             cases.push(CaseSpec { timeout_is_verdict: false, family, class: fam.clone(), display: t.clone(), request: json!({"t": "src", "s": t, "mode": "eval"}) });
